@@ -512,6 +512,17 @@ def rdp_neg_enc(ty, flags, protos):
     return hx(cls(fl, pr).compose())
 
 
+def rdp_neg_dec(ty, h):
+    """parse with the class of the given type; the type shown is that of the flag members when there are any (a response must
+    carry response flags), else that of the class"""
+    from cryptoparser.tls import rdp
+    cls = {1: rdp.RDPNegotiationRequest, 2: rdp.RDPNegotiationResponse}[int(ty)]
+    o, n = cls.parse_immutable(bytes.fromhex(h))
+    kinds = {{'RDPNegotiationRequestFlags': 1, 'RDPNegotiationResponseFlags': 2}[type(f).__name__] for f in o.flags}
+    shown = int(ty) if kinds in (set(), {int(ty)}) else min(kinds ^ {int(ty)} or kinds)
+    return '%d %d %d n=%d' % (shown, sum(int(f) for f in o.flags), sum(int(p) for p in o.protocol), n)
+
+
 def mysql_pkt_enc(seq, h):
     return c_frame('mysql', seq, '' if h == '-' else h)
 
@@ -857,8 +868,13 @@ def rrsig_enc(ty, alg, labels, ttl, ex, inc, kt, name, sig):
         import dateutil.tz
         v = mk_dt(t, 0)
         return v.astimezone(dateutil.tz.tzoffset(None, (int(t) % 57 - 28) * 1800)) if int(kt) % 2 else v
-    return hx(DnsRecordRrsig(tys[0] if tys else DnsRrTypePrivate(int(ty)), _dns_enum(DnsSecAlgorithm, int(alg)), int(labels), int(ttl),
-                             zoned(ex), zoned(inc), int(kt), DnsNameUncompressed(_labels(name)), bytes.fromhex('' if sig == '-' else sig)).compose())
+    rec = DnsRecordRrsig(tys[0] if tys else DnsRrTypePrivate(int(ty)), _dns_enum(DnsSecAlgorithm, int(alg)), int(labels), int(ttl),
+                         zoned(ex), zoned(inc), int(kt), DnsNameUncompressed(_labels(name)), bytes.fromhex('' if sig == '-' else sig))
+    composed = bytes(rec.compose())
+    back = parse_back(DnsRecordRrsig, composed)
+    if back != rec:     # datetimes compare as instants: 13:00+01:00 equals 12:00Z
+        raise RoundTripError('parse(compose(x)) differs from x')
+    return hx(composed)
 
 
 def dnskey_rsa_enc(flags, alg, e, m):
@@ -1329,7 +1345,7 @@ def banner_line(h):
 COMMANDS = {
     'bannerenc': banner_enc, 'bannerdec': banner_dec, 'bannerline': banner_line,
     'nvl': nvl_cmd, 'fvm': fvm_cmd, 'hline': hline_cmd, 'pssl2': pssl2_cmd, 'cssl2': cssl2_cmd, 'pssh': pssh_cmd, 'cssh': cssh_cmd, 'sts': sts_cmd,
-    'tpktenc': tpkt_enc, 'cotpenc': cotp_enc, 'pcotp': p_cotp, 'rdpnegenc': rdp_neg_enc, 'mysqlpktenc': mysql_pkt_enc,
+    'tpktenc': tpkt_enc, 'cotpenc': cotp_enc, 'pcotp': p_cotp, 'rdpnegenc': rdp_neg_enc, 'rdpnegdec': rdp_neg_dec, 'mysqlpktenc': mysql_pkt_enc,
     'mysqlssl41': mysql_ssl41, 'mysqlhs': mysql_hs, 'mysqlssl320': mysql_ssl320, 'ovpnctl': ovpn_ctl, 'ovpntcp': ovpn_tcp, 'ovpnack': ovpn_ack, 'ovpnhrc': ovpn_hrc, 'ovpnhrs': ovpn_hrs, 'ovpndec': ovpn_dec, 'pgssl': pg_ssl,
     'sshpad': ssh_pad, 'mpintspec': mpint_spec, 'kexenc': kex_enc, 'kexdec': kex_dec, 'sshmsg': ssh_msg, 'sshmsgdec': ssh_msg_dec,
     'rsablob': blob_cmd(rsa_blob), 'dssblob': blob_cmd(dss_blob), 'edblob': blob_cmd(ed_blob), 'ecblob': blob_cmd(ec_blob),
